@@ -32,3 +32,25 @@ package store
 //@   call[Header.WriteTo#0] assert flag [C05]: fullyidx(arg0.Characteristics.Hi) == ite(storeIdentityCIDs, 1, 0)
 //@   call[Header.WriteTo#0] assert after_index [C06]: ferr == nil && werr == nil
 //@   ensures index_error_reported [C16]: ferr != nil ==> err != nil
+
+//@ func FindCid
+//@   let gerr := call[Index.GetAll#0]
+//@   check ok_confirmed [C04,C07]: err == nil ==> closure_called(0) && !closure_result(0) && result2 != -1
+//@   ensures ok_nonsentinel [C04,C07]: err == nil ==> result2 != -1
+//@   check notfound_sentinel [C04,C07]: gerr == nil && fnErr == nil && fnLen == -1 ==> err == index.ErrNotFound
+//@   ensures error_sentinels [C07]: err != nil ==> result1 == -1 && result2 == -1
+//@   ensures getall_error [C07]: gerr != nil ==> err == gerr
+//@   closure[0]
+//@     requires between_calls [C07]: fnErr == nil && fnLen == -1
+//@     let c1, d1, e1 := call[util.ReadNode#0]
+//@     let sl, e2 := call[varint.ReadUvarint#0]
+//@     let cl, c2, e3 := call[cid.CidFromReader#0]
+//@     ensures confirm [C04,C07]: result == false && fnErr == nil ==> ite(useWholeCids, readCid == key, mhof(readCid) == mhof(key))
+//@     ensures continue_on_mismatch [C04,C07]: fnErr == nil && !ite(useWholeCids, readCid == key, mhof(readCid) == mhof(key)) ==> result == true && fnLen == -1
+//@     ensures stop_on_error [C07]: fnErr != nil ==> result == false
+//@     ensures continue_keeps_sentinel [C07]: result == true ==> fnLen == -1 && fnErr == nil
+//@     ensures data_len [C07]: result == false && fnErr == nil && readBytes ==> fnLen == len(fnData) && fnLen >= 0
+//@     ensures size_only [C07]: result == false && fnErr == nil && !readBytes ==> fnLen == wrap_s64(wrap_s64(sl) - cl)
+//@     ensures wellformed_nonneg [C07]: result == false && fnErr == nil && !readBytes && cl <= sl ==> fnLen >= 0
+//@     ensures data_offset [C07]: result == false && fnErr == nil && !readBytes ==> fnOffset == wrap_s64(wrap_s64(offset) + vsize(sl) + cl)
+//@   end
